@@ -5,7 +5,7 @@ From NSL Require Import Base.Types Base.Syntax Model.PyNum Model.IR Model.VM Mod
      Proofs.ReturnExprExample Harness.FragLib Proofs.LowerStmtProofs Proofs.ElabStmtProofs Proofs.StraightLineProofs Proofs.StraightLineExample
      Proofs.ForwardProofs Harness.FwdLib Harness.FragLib2 Model.Opt Proofs.FlowLowerProofs Proofs.FlowFuncProofs Harness.FlowLib
      Proofs.FlowElabProofs Proofs.FlowTableProofs Proofs.FlowSimProofs Proofs.FlowSimExample Harness.FlowLib2 Proofs.HistoryRefineProofs
-     Proofs.LoopLowerProofs Proofs.LoopElabProofs Proofs.LoopSimProofs Proofs.LoopSimExample Proofs.DoSimExample Harness.LoopLib.
+     Proofs.LoopLowerProofs Proofs.LoopElabProofs Proofs.LoopSimProofs Proofs.LoopSimExample Proofs.DoSimExample Proofs.ForLowerExample Harness.LoopLib.
 From NSLDyn Require Gen_VM Agree_VM Gen_Shapes.
 Import ListNotations.
 
@@ -267,6 +267,33 @@ Example C01_loop_values :
   run 200 {| p_funcs := [lp_F]; p_globals := ["g"%string] |} lp_F 0 (call_frame lp_ws (init_regs lp_F)) lp_vs = Done (VFloat 7.5%float) {| globals := [("g"%string, VInt 0)]; hp := [] |}.
 Proof. split; vm_compute; reflexivity. Qed.
 
+(** (7') LOOPS, TYPED AST TO IR, including FOR loops: for every typed function whose body is a list of declarations, assignments, blocks,
+    conditionals and -- at the top level -- [while (c) b], [do b while (c)] and [for (t x = i; c; y = e) b] statements (conditions and the
+    initialiser pure, the increment an assignment to a scalar variable, bodies made of assignments, blocks and nested conditionals),
+    followed by a return: the IR function the lowering model produces performs on the VM model exactly what [wtopexec_list] prescribes --
+    the header declaration first, then condition, body and increment in turn for as many rounds as the condition holds -- and returns
+    the value of the returned expression.  For loops: [tres_forloop] (condition block, body block, increment block, exit block; the branch
+    patched with both targets, the jump back from the increment block; induction on the number of evaluations of the condition) composed
+    with the header declaration by [tres_seq].  The source side of for loops (the loop variable lives in a frame of its own in the
+    reference semantics) is not proved yet; the correspondence covers it. *)
+Theorem C01_loop_lowering_partial : forall structs gl (f : tfunc) n k l te F,
+  tf_body f = l ++ [TRet (Some te)] -> forallb (wtop_ok n) l = true -> tpure te = true -> lower_func structs gl f = LOk F ->
+  forall P argv vs locals' V' A' vs' v,
+    wtopexec_list structs gl (map snd (tf_args f)) n k (fn_consts F) [] l [] argv vs = Some (locals', V', A', vs') ->
+    teval structs gl (map snd (tf_args f)) (fn_consts F) locals' (mkfr V' A') vs' te = Ok v ->
+    exists N, forall fuel, N <= fuel -> run fuel P F 0 {| regs := init_regs F; vars := []; fargs := argv |} vs = Done v vs'.
+Proof. exact loop_function_correct. Qed.
+
+(** non-vacuity of (7') for a for loop: int g; f(int n, float b) -> float
+    { float acc = b * 0.5; for (int i = 0; i < n; i = i + 1) { acc += i; if (i < g) { g = g - 1; } } return acc + g; }
+    at n = 3, b = 1, g = 2: the lowered function returns 4.5 and leaves g = 1 *)
+Example C01_for_loop_lowering_instance : forall P,
+  exists N, forall fuel, N <= fuel ->
+    run fuel P fl_F 0 {| regs := init_regs fl_F; vars := []; fargs := fl_argv |} fl_vs = Done (VFloat 4.5%float) {| globals := [("g"%string, VInt 1)]; hp := [] |}.
+Proof. exact fl_conclusion. Qed.
+Example C01_for_loop_in_fragment : forallb (wtop_ok flow_depth) fl_tl = true /\ existsb (fun s => match s with TFor _ _ _ _ => true | _ => false end) fl_tl = true.
+Proof. exact fl_in_typed_fragment. Qed.
+
 (** non-vacuity of (7) for do loops: int g; f(int n, float b) -> float
     { float acc = b * 0.5; int i = 0; do { acc += i; if (i < g) { g = g - 1; } i = i + 1; } while (i < n); return acc + g; }
     at n = 3, b = 1, g = 2: both sides give 4.5 and leave g = 1 *)
@@ -293,4 +320,5 @@ Eval compute in "ASSUMPTIONS C01_straight_line_functions_partial"%string. Print 
 Eval compute in "ASSUMPTIONS C01_conditional_lowering_partial"%string. Print Assumptions C01_conditional_lowering_partial.
 Eval compute in "ASSUMPTIONS C01_conditional_functions_partial"%string. Print Assumptions C01_conditional_functions_partial.
 Eval compute in "ASSUMPTIONS C01_loop_functions_partial"%string. Print Assumptions C01_loop_functions_partial.
+Eval compute in "ASSUMPTIONS C01_loop_lowering_partial"%string. Print Assumptions C01_loop_lowering_partial.
 Eval compute in "END"%string.
